@@ -84,6 +84,9 @@ def complete_table(r, used, universe, maxlen, style):
     hist = dict(used)
     tries = 0
     want = max(2, len(hist) + (r.choice([0, 0, 1, 3]) if style == "extra" else 0))
+    if style == "full":           # EVERY symbol of the universe gets a code (for pm2's code table: all 29 codes present)
+        for s in range(universe):
+            hist.setdefault(s, 1)
     while len(hist) < want and tries < 500:
         tries += 1
         s = r.randrange(universe)
@@ -220,7 +223,9 @@ def gen_pm2(r, target, profile):
     need = {}
     for ce in range(code_epoch + 1):
         used = code_used.get(ce, {})
-        style = r.choice(["huff", "huff", "extra", "random"])
+        style = r.choice(["huff", "huff", "extra", "random", "full"])
+        if style == "full":
+            tags.add("code=all-29")
         if len(used) <= 1 and (r.random() < 0.7 or profile in ("single28", "singlebyte", "singlecopy", "switch") or not used):
             sym = next(iter(used)) if used else r.randrange(8)
             code_txt[ce] = "s%d" % (sym + 1)
